@@ -56,13 +56,19 @@ def run(ctx):
     ctx.cov["traces_validated_against_impl"] += len(rows)
     ctx.cov["evaluations"] += sum(r.get("calls", 0) for r in rows)
     ctx.cov["vectors_replayed"] = len(rows)
-    with open(vec) as f:
-        v = json.loads(f.readline())
-        ctx.sample({"tlc_vector": {"a": v["a"], "calls": v["calls"][:4]}})
+    allv = vlib.read_ndjson(vec)
+    v = next(x for x in allv if "a" in x and x["a"]["dk"] == "pointer")
+    ctx.sample({"tlc_vector": {"a": v["a"], "calls": v["calls"][:4]}})
+    ctx.cov["parser_vectors_design_model"] = sum(1 for x in allv if x.get("kind") == "parse")
     for r in rows:
         if r["ok"]:
             continue
         at = r["at"]
+        if at == "parse":
+            # inputs outside the property (non-canonical / malformed bytes): design model only
+            ctx.notes.append("DRIFT: Address::from_bytes(%s) = %s, design model: %s" % (
+                json.dumps(r["bytes"])[:200], json.dumps(r["got"])[:200], json.dumps(r["want"])[:200]))
+            continue
         a = r.get("a", {})
         n = a.get("n", -1)
         if at in ("hrp", "to_bech32") and n not in (0, 1) and r["why"] == "mismatch" and r["got"].get("hrp") not in KNOWN_HRPS:
@@ -108,7 +114,7 @@ def run(ctx):
         ok2, m2, _, _ = ctx.tlc_trace("addr", "TraceShelleyAddr", "TraceShelleyAddr.cfg", p2, count=False)
         ctx.selftest("drop new event %d" % (inew + 1), (not ok2) and m2 == inew, "matched %d" % m2)
         # replay side: a wrong expected header must be noticed
-        vs = vlib.read_ndjson(vec)[:3]
+        vs = [x for x in allv if "a" in x][:3]
         vs[1]["calls"][0]["h"] ^= 16
         p3 = ctx.path("vectors_corrupt.ndjson")
         vlib.write_ndjson(p3, vs)
